@@ -674,10 +674,46 @@ func genC19(r *rng, tier string, res *Result) {
 		if i < 2 {
 			res.sample(c, 20)
 		}
-		_ = impl
+		// the recovering Open completes and the contents are those of the valid records (as C08)
+		if f := checkSpec(c, impl); f != nil {
+			res.Findings = append(res.Findings, f)
+		}
 	}
 	res.Tags["worst_alloc_per_disk_byte_x100"] = int(worst * 100)
 	res.SpecChecked = n
+}
+
+// replayDirectory: an independent reader of the documented format: segment files in sequence order,
+// records decoded by interp.RefDecode, last record of a key wins, delete records remove.
+func replayDirectory(img map[string][]byte, dir string) map[string]string {
+	type sg struct {
+		seq  uint64
+		data []byte
+	}
+	var segs []sg
+	for nm, data := range img {
+		if !strings.HasPrefix(nm, dir+"/") || !strings.HasSuffix(nm, ".psg") {
+			continue
+		}
+		_, seq, err := pogreb.VerifParseSegmentName(strings.TrimPrefix(nm, dir+"/"))
+		if err != nil || len(data) < 512 {
+			continue
+		}
+		segs = append(segs, sg{seq, data[512:]})
+	}
+	sort.SliceStable(segs, func(i, j int) bool { return segs[i].seq < segs[j].seq })
+	out := map[string]string{}
+	for _, s := range segs {
+		recs, _, _ := interp.RefDecode(s.data)
+		for _, rec := range recs {
+			if rec.Del {
+				delete(out, string(rec.Key))
+			} else {
+				out[string(rec.Key)] = string(rec.Value)
+			}
+		}
+	}
+	return out
 }
 
 // ---------------------------------------------------------------- C18: the on-disk format stays version 2
@@ -923,6 +959,95 @@ func genC18(r *rng, tier string, res *Result) {
 				Impl: []string{what}, Expected: []string{"opens with the 20 keys"}, Program: []string{newName}})
 		}
 		res.Tags["large_sequence_numbers_opened"]++
+	}
+	// sequence numbers are never reused, also when segment ids are: a history with a compaction that
+	// frees a low id, a rollover that reuses it, a clean restart and another rollover; afterwards the
+	// names carry distinct sequence numbers, the segment created last carries the largest, and an
+	// independent replay of the files in sequence order gives the contents
+	for round := 0; round < scale(tier, 2, 10); round++ {
+		t := tfs.New()
+		mk := func() *pogreb.Options {
+			o := &pogreb.Options{FileSystem: t}
+			pogreb.VerifSetThresholds(o, 1024, 512, math.Float32frombits(fragBits(0.2)))
+			return o
+		}
+		db, err := pogreb.Open("db", mk())
+		if err != nil {
+			continue
+		}
+		ref := map[string]string{}
+		put := func(k, v string) {
+			if db.Put([]byte(k), []byte(v)) == nil {
+				ref[k] = v
+			}
+		}
+		// three segments; everything in the first one becomes garbage; Compact removes only it (id 0)
+		for j := 0; j < 9; j++ {
+			put(fmt.Sprintf("x%02d", j), strings.Repeat("x", 40))
+		}
+		for j := 0; j < 18; j++ {
+			put(fmt.Sprintf("y%02d", j), strings.Repeat("y", 40))
+		}
+		for j := 0; j < 9; j++ {
+			put(fmt.Sprintf("x%02d", j), strings.Repeat("X", 40))
+		}
+		_, _ = db.Compact()
+		// keep writing until the log rolls over: the new segment reuses id 0 with the largest sequence number
+		for j := 0; j < 3+r.intn(5); j++ {
+			put(fmt.Sprintf("z%02d", j), strings.Repeat("z", 40))
+		}
+		_ = db.Close()
+		db, err = pogreb.Open("db", mk())
+		if err != nil {
+			continue
+		}
+		// after the clean restart: overwrite keys whose records sit in the newest segments, roll over again
+		for j := 0; j < 14; j++ {
+			put(fmt.Sprintf("z%02d", j), strings.Repeat("Z", 40)+fmt.Sprint(j))
+		}
+		names := []string{}
+		newest, newestSeq := "", uint64(0)
+		seen := map[uint64]string{}
+		what := ""
+		for _, nm := range t.List("db") {
+			if !strings.HasSuffix(nm, ".psg") {
+				continue
+			}
+			names = append(names, nm)
+			_, seq, err := pogreb.VerifParseSegmentName(nm)
+			if err != nil {
+				what = "unparsable segment name " + nm
+				continue
+			}
+			if other, dup := seen[seq]; dup {
+				what = fmt.Sprintf("segments %s and %s carry the same sequence number", other, nm)
+			}
+			seen[seq] = nm
+			if seq > newestSeq {
+				newest, newestSeq = nm, seq
+			}
+		}
+		if id, nm, ok := pogreb.VerifCurrentSegment(db); ok && what == "" && nm != newest {
+			what = fmt.Sprintf("the current segment %s (id %d) does not carry the largest sequence number (%s does)", nm, id, newest)
+		}
+		// independent replay after an unclean shutdown image
+		img := tfs.CrashKeepPending(t.Base(), t.Events(0, t.NumEvents()), t.NumEvents(), 0).Image()
+		_ = db.Close()
+		if what == "" {
+			got := replayDirectory(img, "db")
+			for k, v := range ref {
+				if got[k] != v {
+					what = fmt.Sprintf("independent replay in sequence order: %s = %q, written last: %q", k, clip(got[k]), clip(v))
+					break
+				}
+			}
+		}
+		if what != "" {
+			res.Findings = append(res.Findings, &Finding{Kind: "spec", Case: fmt.Sprintf("C18/seqnames/%d", round), Cmd: "segment names after id reuse, clean restart and rollover",
+				Impl: []string{what, strings.Join(names, " ")}, Expected: []string{"distinct sequence numbers, the newest segment has the largest, replay in sequence order gives the contents"},
+				Program: []string{"12 x put a", "compact", "30 x put b..", "close", "open", "40 x put b..", "list segment files"}})
+		}
+		res.Tags["sequence_number_histories"]++
 	}
 	// the golden segments are accepted record for record by the Coq reader
 	cmd := exec.Command("sh", "-c", "ulimit -s unlimited 2>/dev/null; exec \"$0\" flat", modelBin)
